@@ -68,3 +68,21 @@ Proof.
     + eauto.
   - intros H. apply (cdiv_panics_iff_lemma AQ_FieldLaws). now apply abs_sqr_zero_Qc.
 Qed.
+
+(* ---- Complex<Rat> = Q[i] is a field: Q is formally real ---- *)
+From OV Require Import Proofs.ComplexField.
+From Coq Require Import Field.
+
+Lemma AQ_formally_real : formally_real AQ.
+Proof. intros x y H. exact (Qc_sum_sq_zero x y H). Qed.
+
+Lemma complex_Qc_field_lemma :
+  field_theory (@czero AQ) cone cadd cmul csub cneg (cdivt AQ_FieldLaws) (cinv AQ_FieldLaws) eq.
+Proof. exact (complex_field_lemma AQ_FieldLaws AQ_formally_real). Qed.
+
+(* the theory is usable by the `field` tactic *)
+Add Field CQfield : complex_Qc_field_lemma.
+Example field_tactic_on_complex_Qc (z w v : cplx AQ) :
+  w <> czero -> v <> czero ->
+  cadd (cdivt AQ_FieldLaws z w) (cdivt AQ_FieldLaws z v) = cdivt AQ_FieldLaws (cmul z (cadd w v)) (cmul w v).
+Proof. intros Hw Hv. field. split; assumption. Qed.
